@@ -162,6 +162,16 @@ def count (m : Dec α) : Nat → Nat → IterSt → List (Ev α) × IterSt
     | (.panic, s') => ([.panic], s')
     | (_, s')      => count m fuel (c + 1) s'
 
+/-- `it.fuse()`: drained, then `n` more calls, which `Fuse` answers itself (the iterators do not implement `FusedIterator`, so the inner
+    one is not asked again). -/
+def fuse (m : Dec α) (fuel n : Nat) (s : IterSt) : List (Ev α) × IterSt :=
+  let (evs, s') := all m fuel s
+  match evs.getLast? with
+  | some (.error _) => (evs, s')
+  | some .panic => (evs, s')
+  | some .diverged => (evs, s')
+  | _ => (evs ++ List.replicate n .none, s')
+
 end Script
 
 end Minicbor
